@@ -48,7 +48,7 @@ def cache_dir():
     global _cache_key
     if _cache_key is None:
         files = tree_files(os.path.join(REPO, 'src')) + tree_files(os.path.join(VERIF, 'inst')) + \
-            [os.path.join(VERIF, 'tools', 'll2c.py'), os.path.join(VERIF, 'tools', 'vf.py'), os.path.join(VERIF, 'tools', 'layout.py')]
+            [os.path.join(VERIF, 'tools', 'll2c.py'), os.path.join(VERIF, 'tools', 'vf.py'), os.path.join(VERIF, 'tools', 'layout.py'), os.path.join(VERIF, 'tools', 'vec.py')]
         _cache_key = _sha(files)
     d = os.path.join(BUILD, _cache_key)
     os.makedirs(d, exist_ok=True)
@@ -113,7 +113,9 @@ class Resolver:
     def __init__(self, cpath, names):
         self.names = names
         self.protos = {}
-        for m in re.finditer(r'^(.*?) (f_[A-Za-z0-9_]+)\((.*)\); /\* (?:extern )?(.*) \*/$', open(cpath).read(), re.M):
+        ctext = open(cpath).read()
+        self.consts = {m.group(1): m.group(2) for m in re.finditer(r'^const uint64_t g_([A-Za-z0-9_]+) = \(\(uint64_t\)(\d+)ull\);', ctext, re.M)}
+        for m in re.finditer(r'^(.*?) (f_[A-Za-z0-9_]+)\((.*)\); /\* (?:extern )?(.*) \*/$', ctext, re.M):
             self.protos[m.group(2)] = (m.group(1), m.group(3))
 
     def fn(self, rx):
@@ -141,6 +143,11 @@ class Resolver:
         left = re.findall(r'\{\{[A-Za-z0-9_]+\}\}', text)
         if left:
             raise Undecided('template variable(s) not set: %s' % sorted(set(left)))
+        def const(m):
+            if m.group(1) not in self.consts:
+                raise Undecided('constant %s is not exported by the instantiation TU' % m.group(1))
+            return self.consts[m.group(1)] + 'ull'
+        text = re.sub(r'@K\{(\w+)\}', const, text)
         text = re.sub(r'@T\{((?:[^{}]|\{[^{}]*\})*)\|(\w+)\}', lambda m: self.ptype(m.group(1), m.group(2)), text)
         text = re.sub(r'@F\{((?:[^{}]|\{[^{}]*\})*)\}', lambda m: self.fn(m.group(1)), text)
         return text
@@ -194,7 +201,7 @@ def run_unit(u, workdir):
     demap = names['funcs']
     res['function'] = demap.get(enforce, enforce)
     res['replaced'] = [demap.get(x, x) for x in replace]
-    rc, out, err, _ = run(['goto-cc', '--function', entry, '-I', os.path.join(VERIF, 'contracts'), base + '.c',
+    rc, out, err, _ = run(['goto-cc', '--function', entry, '-I', os.path.join(VERIF, 'contracts')] + ['-D' + d for d in u.get('cdefs', [])] + [base + '.c',
                            os.path.join(VERIF, 'contracts', 'prelude.c'), '-o', base + '.gb'], 300)
     if rc != 0:
         res['reason'] = 'goto-cc failed: ' + (err + out)[-1500:]
@@ -257,7 +264,14 @@ def run_unit(u, workdir):
     if not obs or missing:
         res['reason'] = 'vacuity guard: no obligations of class %s generated' % missing
         return res
-    res['status'] = 'fail' if any(o['status'] != 'SUCCESS' for o in obs) else 'ok'
+    # CBMC reports UNKNOWN for properties it did not decide in a run that found failures; they are neither discharged
+    # nor violated.  UNKNOWN without any FAILURE means the run is undecided.
+    nfail = sum(1 for o in obs if o['status'] == 'FAILURE')
+    nunk = sum(1 for o in obs if o['status'] not in ('SUCCESS', 'FAILURE'))
+    if nfail == 0 and nunk:
+        res['reason'] = '%d obligations left UNKNOWN by cbmc' % nunk
+        return res
+    res['status'] = 'fail' if nfail else 'ok'
     res['wall_s'] = round(time.time() - t0, 2)
     res['gb'] = base + '.i.gb'
     res['cbmc_cmd'] = cb
